@@ -182,6 +182,10 @@ func (r *runner) Exec(op string) (reply string, viol string) {
 	if name == "create" {
 		return r.create(kv)
 	}
+	if name == "wmigrate" {
+		// self-contained wallet-level scenario (its own wallet.Wallet in its own directory)
+		return r.wmigrate(kv)
+	}
 	if !r.created {
 		return "err notcreated || ", ""
 	}
@@ -193,6 +197,9 @@ func (r *runner) Exec(op string) (reply string, viol string) {
 			r.poison = true
 			reply = "panic || "
 			viol = fmt.Sprintf("C05 key=%s.panic: %v", name, p)
+			if ps, ok := p.(string); ok && strings.HasPrefix(ps, "DeriveFromKeyPathCache.") {
+				viol = "C05 key=" + ps
+			}
 			if name == "unlock" {
 				viol = fmt.Sprintf("C05 key=Unlock.nil-privkey-deriveOnUnlock-watchonly-account: Unlock panics: %v", p)
 			}
@@ -641,6 +648,21 @@ func (r *runner) Exec(op string) (reply string, viol string) {
 				v = append(v, fmt.Sprintf("C03 key=accountProperties.key-count: branch %d reports %d keys, %d were issued", br, got, want))
 			}
 		}
+		// C03 (address format): the account's overriding address schema, as the wallet reports it, is the one the
+		// account was imported with (harness bookkeeping) — it decides the format of every address of the account
+		if m := r.accts[scope][atou(kv["a"])]; m != nil && !clob {
+			got := "-"
+			if p.AddrSchema != nil {
+				got = fmt.Sprintf("%d/%d", p.AddrSchema.ExternalAddrType, p.AddrSchema.InternalAddrType)
+			}
+			want := "-"
+			if m.schema != nil {
+				want = fmt.Sprintf("%d/%d", m.schema[0], m.schema[1])
+			}
+			if got != want {
+				v = append(v, fmt.Sprintf("C03 key=accountProperties.addr-schema: account %d of scope %s reports the overriding address schema %s, it was imported with %s", atou(kv["a"]), scope, got, want))
+			}
+		}
 		return r.finish(fmt.Sprintf("ok props=%d:%d:%s:%s", p.ExternalKeyCount, p.InternalKeyCount, nameID(p.AccountName), b01(p.IsWatchOnly)), nil, tap, v)
 	case "restart":
 		r.mgr.Close()
@@ -657,12 +679,100 @@ func (r *runner) Exec(op string) (reply string, viol string) {
 			v = append(v, r.checkNoPrivateRows()...)
 		}
 		return r.finish("ok", err, tap, v)
+	case "rename":
+		sm, err := r.scoped(scope)
+		if err != nil {
+			return r.finish("", err, tap, v)
+		}
+		err = r.update(tap, func(ns walletdb.ReadWriteBucket) error {
+			return sm.RenameAccount(ns, atou(kv["a"]), acctName(atoi(kv["name"])))
+		})
+		return r.finish("ok", err, tap, v)
+	case "dcache":
+		return r.deriveCache(scope, kv, tap)
 	case "recreate":
 		return "ok || ", joinV(r.recreate(atou(kv["n"])))
 	case "rectx":
 		return r.recordTx(scope, kv["ref"])
 	}
 	return "bad-op", ""
+}
+
+// deriveCache: ScopedKeyManager.DeriveFromKeyPathCache, the memory-only fast path behind Wallet.DeriveFromKeyPath /
+// DeriveFromKeyPathAddAccount.  C03: the private key it returns for scope/InternalAccount/branch/index is the key of the
+// public key of the address at that path (independent derivation), and it is the key the slow path
+// (DeriveFromKeyPath + PrivKey) returns; the `Account` field of the path is informational.
+func (r *runner) deriveCache(scope string, kv map[string]string, tap *puttap.Tap) (string, string) {
+	var v []string
+	sm, err := r.scoped(scope)
+	if err != nil {
+		return r.finish("", err, tap, v)
+	}
+	acct, ac, br, idx := atou(kv["a"]), atou(kv["ac"]), atou(kv["b"]), atou(kv["i"])
+	m, known := r.accts[scope][acct]
+	if known && br < hardened && idx < hardened {
+		r.registerBranch(scope, acct, br, idx)
+	}
+	path := waddrmgr.DerivationPath{InternalAccount: acct, Account: ac, Branch: br, Index: idx}
+	d := ckey(scope, acct, br, idx)
+	var priv *btcec.PrivateKey
+	func() {
+		defer func() {
+			if p := recover(); p != nil {
+				if known && m.xpub != nil {
+					panic(fmt.Sprintf("DeriveFromKeyPathCache.nil-privkey-watchonly-account: %v", p))
+				}
+				panic(p)
+			}
+		}()
+		priv, err = sm.DeriveFromKeyPathCache(path)
+	}()
+	if err == nil && r.mgr.WatchOnly() {
+		v = append(v, "C04 key=watch-only.derive-cache-key-returned: DeriveFromKeyPathCache returned a private key on a watching-only manager")
+	}
+	if err == nil && r.mgr.IsLocked() {
+		v = append(v, "C05 key=DeriveFromKeyPathCache.cached-path-while-locked: DeriveFromKeyPathCache returned a private key while the manager is locked")
+	}
+	if err != nil {
+		return r.finish("", err, tap, v)
+	}
+	res := "ok key=?"
+	if known && m.gen == 0 {
+		_, _, k := r.chainedOracle(scope, acct, br, idx)
+		switch {
+		case k == nil || !k.IsPriv:
+			v = append(v, fmt.Sprintf("C03 key=deriveFromKeyPathCache.key-for-keyless-account: DeriveFromKeyPathCache returned a private key for %s, an account the wallet has no private key of", d))
+		case !bytes.Equal(priv.Serialize(), k.PrivBytes()) || !bytes.Equal(priv.PubKey().SerializeCompressed(), k.PubBytes()):
+			whose := ""
+			for a2 := range r.accts[scope] {
+				if _, _, k2 := r.chainedOracle(scope, a2, br, idx); a2 != acct && k2 != nil && k2.IsPriv && bytes.Equal(priv.Serialize(), k2.PrivBytes()) {
+					whose = fmt.Sprintf(" (it is the key of account %d)", a2)
+				}
+			}
+			v = append(v, fmt.Sprintf("C03 key=deriveFromKeyPathCache.key-not-seed-child: DeriveFromKeyPathCache(InternalAccount=%d Account=%d %d/%d) of scope %s returned a private key whose public key is %x%s; the address at that path has public key %x",
+				acct, ac, br, idx, scope, priv.PubKey().SerializeCompressed(), whose, k.PubBytes()))
+		default:
+			res = "ok key=hd"
+		}
+		// agreement with the slow path (no state change: the account is cached, the manager unlocked)
+		var slow *btcec.PrivateKey
+		var serr error
+		_ = walletdb.View(r.db, func(tx walletdb.ReadTx) error {
+			ma, e := sm.DeriveFromKeyPath(tx.ReadBucket(nsKey), path)
+			if e != nil {
+				serr = e
+				return nil
+			}
+			if pka, ok := ma.(waddrmgr.ManagedPubKeyAddress); ok {
+				slow, serr = pka.PrivKey()
+			}
+			return nil
+		})
+		if serr != nil || slow == nil || !bytes.Equal(slow.Serialize(), priv.Serialize()) {
+			v = append(v, fmt.Sprintf("C03 key=deriveFromKeyPathCache.disagrees-with-deriveFromKeyPath: for %s (Account=%d) the cache path and DeriveFromKeyPath+PrivKey() return different keys (slow path error: %v)", d, ac, serr))
+		}
+	}
+	return r.finish(res, nil, tap, v)
 }
 
 var wtxNS = []byte("wtxmgr")
